@@ -30,6 +30,11 @@ func main() {
 
 func setupEngine(repo, verif string, overlay map[string][]byte) (*Engine, error) {
 	e := newEngine(repo, filepath.Join(verif, "fvc", "lib"))
+	if data, err := os.ReadFile(filepath.Join(verif, "known_findings.json")); err == nil {
+		if err := json.Unmarshal(data, &e.known); err != nil {
+			return nil, fmt.Errorf("known_findings.json: %v", err)
+		}
+	}
 	if err := e.load([]string{"./pkg/...", "./apis/..."}, overlay); err != nil {
 		return nil, err
 	}
@@ -138,11 +143,13 @@ func cmdDump(args []string) int {
 // check
 
 type KnownFinding struct {
-	Property   string `json:"property"`
-	Obligation string `json:"obligation"`
-	What       string `json:"what"`
-	Status     string `json:"status"` // "known" or "fixed"
-	Commit     string `json:"commit,omitempty"`
+	ID         string   `json:"id"`
+	Properties []string `json:"properties"`
+	Obligation string   `json:"obligation"`
+	Guard      string   `json:"guard,omitempty"` // spec expression over the function's parameters: the known failing class
+	What       string   `json:"what"`
+	Status     string   `json:"status"` // "known" or "fixed"
+	Commit     string   `json:"commit,omitempty"`
 }
 
 type Evidence struct {
@@ -214,15 +221,10 @@ func cmdCheck(args []string) int {
 	}
 	solveAll(obls, tmp, timeout, 16, agree)
 
-	// known findings
-	var known []KnownFinding
-	if data, err := os.ReadFile(filepath.Join(*verif, "known_findings.json")); err == nil {
-		_ = json.Unmarshal(data, &known)
-	}
 	isKnown := func(name string) *KnownFinding {
-		for i := range known {
-			if known[i].Status == "known" && known[i].Property == *prop && known[i].Obligation == name {
-				return &known[i]
+		for i := range e.known {
+			if e.known[i].Status == "known" && e.known[i].Obligation == name {
+				return &e.known[i]
 			}
 		}
 		return nil
@@ -237,6 +239,24 @@ func cmdCheck(args []string) int {
 	var failedNames []string
 	bySolver := map[string]int{}
 	knownSeen := map[string]bool{}
+	var proofObls []*Obligation
+	for _, o := range obls {
+		if o.Kind == "known-finding" {
+			// the known failing class: still failing (sat / undecided) -> report as known; proved -> it has been fixed, say nothing
+			if o.Result != "unsat" {
+				kf := isKnown(strings.TrimSuffix(o.Name, "?known"))
+				what := ""
+				if kf != nil {
+					what = kf.ID + " " + kf.What
+				}
+				fmt.Printf("KNOWN-FINDING: property=%s %s: %s\n", *prop, strings.TrimSuffix(o.Name, "?known"), what)
+				knownSeen[strings.TrimSuffix(o.Name, "?known")] = true
+			}
+			continue
+		}
+		proofObls = append(proofObls, o)
+	}
+	obls = proofObls
 	for _, o := range obls {
 		solverMs += o.Ms
 		ok := o.Result == o.Expect || (o.Expect == "sat" && (o.Result == "unknown" || o.Result == "timeout"))
@@ -246,11 +266,6 @@ func cmdCheck(args []string) int {
 			if len(samples) < 12 {
 				samples = append(samples, map[string]interface{}{"obligation": o.Name, "kind": o.Kind, "clause": truncate(o.Src, 160), "solver": o.Solver, "result": o.Result, "ms": o.Ms})
 			}
-			continue
-		}
-		if kf := isKnown(o.Name); kf != nil {
-			fmt.Printf("KNOWN-FINDING: property=%s %s: %s\n", *prop, o.Name, kf.What)
-			knownSeen[o.Name] = true
 			continue
 		}
 		violations++
